@@ -6,10 +6,11 @@
    xor-ed over the protected bytes in order, identity elsewhere.  E is ANY function from key and block to
    16-byte blocks. *)
 From V.lib Require Import Base.
+From V.c05 Require Import C05Model C05FragModel C05OffProofs.
 From V.c15 Require Import C15Model C15Spec C15HevcModel C15HevcSpec C15Examples C15HevcSliceExamples.
 From V.c06 Require Import C06SencModel C06SencAuxProofs.
 From V.c07 Require Import C07Model C07Spec C07RangeProofs C07CryptProofs C07AuxProofs C07FinalProofs.
-From V.c07 Require Import C07CodecModel C07CodecProofs C07FragProofs C07OnlyProofs C07TrafModel C07TrafProofs C07MixedProofs.
+From V.c07 Require Import C07CodecModel C07CodecProofs C07FragProofs C07OnlyProofs C07TrafModel C07TrafProofs C07MixedProofs C07OffsetProofs.
 
 (* AppendProtectRange, every nrClear / nrProtected (65535, 65536, 131070, ... included) *)
 Theorem C07_append_protect_range : forall ssps c p,
@@ -351,6 +352,50 @@ Theorem C07_aux_mixed_pinned_refuted :
 Proof. exact aux_mixed_pinned_refuted. Qed.
 Print Assumptions C07_aux_mixed_pinned_refuted.
 
+(* trun.data_offset after encryption, on the bytes of the fragment: the moof grows by exactly |saiz|+|saio|+|senc|,
+   so does the offset Fragment.Encode writes (data_offset = moof size + mdat header, see C07_offsets_grow_struct), and
+   reading sample i of the ENCRYPTED file (moof || mdat) through the grown offset returns the encrypted sample i -
+   same size, same position inside the mdat as in the clear file, equal to the clear sample outside its protected
+   ranges (keep_clear over the payload); reading the clear file through the clear offset returns the clear sample *)
+Theorem C07_offsets_after_encrypt :
+  forall (E D : list N -> list N -> list N) (protfunc : list N -> res (list ssp)),
+  (forall k b, length (E k b) = 16%nat) -> (forall k b, length (D k b) = 16%nat) ->
+  forall sch key iv cb sb f g,
+  (forall s r, protfunc s = Ok r -> covered r <= lenN s) ->
+  key_ok key = true -> bytes_ok iv = true ->
+  Forall (fun s => lenN s < 4294967296) (bf_samples f) ->
+  encrypt_fragment_bytes E D protfunc sch key iv cb sb f = Ok g ->
+  exists saizb saiob sencb encs,
+    bf_traf g = bf_traf f ++ [saizb; saiob; sencb] /\
+    lenN (moof_bytes g) = lenN (moof_bytes f) + (lenN saizb + lenN saiob + lenN sencb) /\
+    data_offset g = data_offset f + (lenN saizb + lenN saiob + lenN sencb) /\
+    bf_samples g = map e_data encs /\
+    keep_clear (concat (map (fun e => sample_mask (e_ssps e) (lenN (e_data e))) encs))
+               (mdat_payload f) (mdat_payload g) /\
+    forall i s, nth_error (bf_samples f) i = Some s ->
+      read_sample (frag_file f) (data_offset f) (bf_samples f) i = s /\
+      exists e, nth_error encs i = Some e /\ protfunc s = Ok (e_ssps e) /\
+                read_sample (frag_file g) (data_offset g) (bf_samples g) i = e_data e /\
+                sizes_before (bf_samples g) i = sizes_before (bf_samples f) i /\
+                length (e_data e) = length s.
+Proof. exact offsets_after_encrypt. Qed.
+Print Assumptions C07_offsets_after_encrypt.
+
+(* composition with C05 (coq/c05, read-only): on C05's fragment structure (any number of trafs / truns, any write
+   order), appending a bytes of boxes to a traf (= EncryptFragment: add_traf_extra) makes SetTrunDataOffsets
+   (set_offsets, C05OffProofs.set_offsets_spec) write data offsets that are larger by exactly a for EVERY trun; the
+   offsets are moof size + mdat header + data written before the run.  Guard: int32 (C05-F5 beyond) *)
+Theorem C07_offsets_grow_struct : forall fr a,
+  fr_trafs fr <> [] ->
+  let L := all_truns (fr_trafs fr) in
+  let m := md_size_touch (fr_mdat fr) in
+  NoDup (map tr_won L) ->
+  moof_size fr + a + md_header_size m + tsum (map pr L) < 2147483648 ->
+  doffs (set_offsets (add_traf_extra fr a)) = map (fun z => (z + Z.of_N a)%Z) (doffs (set_offsets fr)) /\
+  doffs (set_offsets fr) = map (fun r => Z.of_N (moof_size fr + md_header_size m + wsum (map pr L) (tr_won r))) L.
+Proof. exact offsets_grow_struct. Qed.
+Print Assumptions C07_offsets_grow_struct.
+
 (* ---------------------------------------------------------------- the hypotheses are satisfiable *)
 Definition ex_nalus : list (list N) :=
   [ [9; 240];                                  (* AUD, 2 bytes *)
@@ -445,3 +490,14 @@ Example ex_fragment_bytes :
   | _ => False
   end.
 Proof. vm_compute. split; reflexivity. Qed.
+
+(* the offsets of the example fragment: clear moof 57 bytes -> offset 65; encrypted moof 57 + 19 + 20 + 76 *)
+Example ex_offsets :
+  match encrypt_fragment_bytes ex_E ex_E (protect_ranges_r avc_is_video (fun _ => Err) Cenc) Cenc (repeat 7 16)
+          (repeat 255 8) 0 0 ex_bfrag with
+  | Ok g => data_offset ex_bfrag = 65 /\ data_offset g = 65 + (19 + 20 + 76) /\
+            read_sample (frag_file g) (data_offset g) (bf_samples g) 1 = nth 1 (bf_samples g) [] /\
+            firstn 102 (nth 1 (bf_samples g) []) = firstn 102 (frames ex_nalus)
+  | _ => False
+  end.
+Proof. vm_compute. repeat split; reflexivity. Qed.
